@@ -133,6 +133,11 @@ MUTANTS = [
     ('Affine.__add__ resizes a user sparse matrix in place', 'C19', 'rsome/lp.py',
      "        array = np.array(array.todense()) if sp.issparse(array) else array",
      "        array = np.array(array.todense()) if sp.issparse(array) else array"),
+    ('flat() does not recurse', 'C15', 'rsome/subroutines.py',
+     "            flat_list.extend(flat(item))", "            flat_list.extend(item)"),
+    ('vert_comb takes the lower block\'s column indices from the upper one', 'C18', 'rsome/subroutines.py',
+     "    indices = np.concatenate((upper.indices, lower.indices))",
+     "    indices = np.concatenate((upper.indices, np.sort(lower.indices)))"),
     ('formulation draws from the global RNG', 'C19', 'rsome/lp.py',
      "            vtype = np.concatenate([np.array([item.vtype] * item.size)",
      "            np.random.rand()\n            vtype = np.concatenate([np.array([item.vtype] * item.size)"),
